@@ -1180,6 +1180,16 @@ def color_to_rgb_hex(color):
     return '#{0:02x}{1:02x}{2:02x}'.format(*_color_to_rgb(color))  # noqa UP030
 
 
+def _is_opaque_alpha(alpha):
+    """\
+    Returns if the alpha value counts as opaque: ``1.0`` as float, ``255``
+    (or ``1``) as integer; the float ``255.0`` is an invalid alpha value.
+    """
+    if isinstance(alpha, float):
+        return alpha == 1.0
+    return alpha in (255, 1)
+
+
 def _color_is_black(color):
     """\
     Returns if the provided color represents "black".
@@ -1193,8 +1203,11 @@ def _color_is_black(color):
         color = color.lower()
     except AttributeError:
         pass
-    return color in ('#000', '#000000', 'black', (0, 0, 0), (0, 0, 0, 255),
-                     (0, 0, 0, 1.0))
+    if isinstance(color, tuple) and len(color) == 4:
+        if not _is_opaque_alpha(color[3]):
+            return False
+        color = color[:3]
+    return color in ('#000', '#000000', 'black', (0, 0, 0))
 
 
 def _color_is_white(color):
@@ -1210,8 +1223,11 @@ def _color_is_white(color):
         color = color.lower()
     except AttributeError:
         pass
-    return color in ('#fff', '#ffffff', 'white', (255, 255, 255),
-                     (255, 255, 255, 255), (255, 255, 255, 1.0))
+    if isinstance(color, tuple) and len(color) == 4:
+        if not _is_opaque_alpha(color[3]):
+            return False
+        color = color[:3]
+    return color in ('#fff', '#ffffff', 'white', (255, 255, 255))
 
 
 def _color_to_rgb(color):
